@@ -1207,7 +1207,13 @@ func (c *ctx) scenarios(pendingOnly bool) {
 		if rnd.Intn(4) == 0 {
 			base = pick(rnd, matrix)
 		}
-		if strings.HasPrefix(base.name, "hold-writes") {
+		held := false
+		for _, st := range base.steps {
+			if st == "holdwrites" {
+				held = true
+			}
+		}
+		if held {
 			// with the peer not reading, any inserted stanza whose handler answers would block by
 			// design: these scripts are not varied
 			continue
